@@ -59,3 +59,41 @@ Example C15_witness :
   let l := mkListing [(10, [TWord WEnd]); (20, [TWord WStop]); (30, [TWord WEnd])] [] [] in
   asc (ls_lines l) /\ list_texts 5 l 15 30 = Ok [s2l "20 STOP"%string; s2l "30 END"%string].
 Proof. split; [repeat constructor | vm_compute; reflexivity]. Qed.
+
+(* ---- the operands of LIST and DELETE (Proofs/ParseRange.v) ---- *)
+From BL Require Import Lang.Token Lang.Ast Lang.Parse Proofs.ParseExpr Proofs.ParseRange.
+
+(* the range parser, in front of: nothing that is a number or a dash / n / n- / -m / n-m, returns the documented bounds
+   (`bound e n`: the operand e is the line-number literal n, columns aside) and stands behind what it read *)
+Theorem C15_range_bare : forall st ts, rep st ts -> not_number ts -> not_dash ts ->
+  exists a b st', line_number_range st = Ok ((a, b), st') /\ bound a 0 /\ bound b 65529 /\ rep st' ts.
+Proof. exact range_bare. Qed.
+Print Assumptions C15_range_bare.
+
+Theorem C15_range_single : forall st t n r, rep st (t :: r) -> is_lnum t n -> not_dash r ->
+  exists a b st', line_number_range st = Ok ((a, b), st') /\ bound a n /\ bound b n /\ rep st' r.
+Proof. exact range_single. Qed.
+Print Assumptions C15_range_single.
+
+Theorem C15_range_from : forall st t n r, rep st (t :: TOp OMinus :: r) -> is_lnum t n -> not_number r ->
+  exists a b st', line_number_range st = Ok ((a, b), st') /\ bound a n /\ bound b 65529 /\ rep st' r.
+Proof. exact range_from. Qed.
+Print Assumptions C15_range_from.
+
+Theorem C15_range_to : forall st t m r, rep st (TOp OMinus :: t :: r) -> is_lnum t m ->
+  exists a b st', line_number_range st = Ok ((a, b), st') /\ bound a 0 /\ bound b m /\ rep st' r.
+Proof. exact range_to. Qed.
+Print Assumptions C15_range_to.
+
+(* n-m, and an inverted range is refused before anything runs *)
+Theorem C15_range_both : forall st t1 n t2 m r, rep st (t1 :: TOp OMinus :: t2 :: r) -> is_lnum t1 n -> is_lnum t2 m ->
+  if m <? n then exists e, line_number_range st = Err e /\ ecode e = E_UndefinedLine
+  else exists a b st', line_number_range st = Ok ((a, b), st') /\ bound a n /\ bound b m /\ rep st' r.
+Proof. exact range_both. Qed.
+Print Assumptions C15_range_both.
+
+Theorem C15_range_tokens :
+  Lex.lex (s2l "LIST 120-300") = Ok (None, [TWord WList; TWs 1; TLit (LInt (s2l "120")); TOp OMinus; TLit (LInt (s2l "300"))])
+  /\ is_lnum (TLit (LInt (s2l "120"))) 120 /\ is_lnum (TLit (LInt (s2l "300"))) 300.
+Proof. exact range_tokens. Qed.
+Print Assumptions C15_range_tokens.
